@@ -128,8 +128,15 @@ pub fn run_parallel(cycles: usize, stripes: usize, retire_min: usize) -> (DeepRe
         .map(|t| run_stripe(cycles, t, stripes, retire_min))
         .collect();
     // all stripes execute the same history: their id sequences must be identical
+    // (a stripe stops at its first failure, so only the common prefix can be compared)
     let first_ids = results[0].ids.clone();
-    let agree = results.iter().filter(|r| r.ids == first_ids).count();
+    let agree = results
+        .iter()
+        .filter(|r| {
+            let n = r.ids.len().min(first_ids.len());
+            r.ids[..n] == first_ids[..n]
+        })
+        .count();
     let mut total = results.remove(0);
     for r in results {
         total.is_removed_checks += r.is_removed_checks;
